@@ -152,6 +152,11 @@ def _check_attr_use(ctx, f, attr_node, par):
         fn = norm(p.func)
         if fn in ("hasattr", "str", "repr", "isinstance", "_dtype_is_numpy_struct_array"):
             return True
+        t_ = ctx.model.resolve_call(f, p)
+        if t_.kind in ("func", "method") or fn.split(".")[-1].startswith("_"):
+            # handed to a helper of the package (the struct test moved into a static method, a name-extraction helper): what the helper does
+            # with it is that helper's business -- a dtype object carries no element values, so nothing here is a witness
+            raise AnalysisError(f"C17.1: the dtype object is passed to the package helper `{fn}`; what it reads from it is not followed")
         ctx.bad("C17.1", f, p, f"the dtype object is passed to `{fn}`")
         return None
     if isinstance(p, ast.Assign) and p.value is attr_node:
